@@ -39,6 +39,12 @@ def scenarios(quick):
     out.append({"name": "churn", "steps": ["create:1"] + churn + ["create:1", "delete"]})
     out.append({"name": "churn-burst", "steps": ["create:1", "settle", "burst"] + churn + ["create:1", "delete"]})
     out.append({"name": "churn-catalogue", "steps": sum([[c, "create:1"] if i % 5 == 0 else [c] for i, c in enumerate(churn)], []) + ["delete"]})
+    # membership changes while other goroutines of the node dial peers (two locks in cluster.Conn: address book, connections)
+    dchurn = []
+    for i in range(40 if quick else 150):
+        dchurn += ["conf+%d" % (2 + i % 4), "conf-%d" % (2 + i % 4)]
+    out.append({"name": "dial-churn", "steps": ["dialers", "create:1"] + dchurn + ["create:1", "delete"]})
+    out.append({"name": "dial-churn-burst", "steps": ["dialers", "create:1", "settle", "burst"] + dchurn + ["create:1", "delete"]})
     # a partition whose raft group has no leader (its other replica is not there): the peer is removed, the
     # dataset deleted, further catalogue changes follow - every wait on that group has to be abandonable
     for steps in (["conf+2", "create:2", "settle", "conf-2", "delete", "create:1"],
@@ -87,6 +93,14 @@ def run(ctx):
     ctx.cov["binding_selftest"]["switch_InlineNodeChanges_TRUE_churn_gives_deadlock"] = r3.deadlock
     if not (r1.deadlock and r2.deadlock and r3.deadlock):
         raise vlib.NoVerdict("vacuity guard failed: a shipped behaviour does not deadlock the model (%s %s %s)" % (r1.deadlock, r2.deadlock, r3.deadlock))
+    # cluster.Conn's two locks: the apply loop (RemoveNode / AddNode) against dialling goroutines
+    rl = ctx.tlc("ConnLocks", "ConnLocks_mc.cfg", timeout=300, name="ConnLocks")
+    if rl.deadlock or rl.violated:
+        raise vlib.NoVerdict("ConnLocks deadlocks / violates %s in the shipped lock order: specification bug" % rl.violated)
+    rl2 = ctx.tlc("ConnLocks", ctx.cfg("ConnLocks_mc.cfg", {"DialNested": "TRUE"}), timeout=300, name="ConnLocks-nested", count=False)
+    ctx.cov["binding_selftest"]["switch_DialNested_TRUE_gives_deadlock"] = rl2.deadlock
+    if not rl2.deadlock:
+        raise vlib.NoVerdict("vacuity guard failed: a Dial that nests the two locks does not deadlock the model")
     # ---- the real control plane under the same entry sequences
     scs = scenarios(quick)
 
